@@ -188,5 +188,5 @@ func init() { register("C15", checkC15) }
 
 func TestC15(t *testing.T) {
 	_ = fmt.Sprint
-	runProp(t, "C15", checkC15, nil, part[c15Case]{"cosmetic-lists", scale(1500, 15000), genC15})
+	runProp(t, "C15", checkC15, nil, part[c15Case]{"cosmetic-lists", scale(4000, 15000), genC15})
 }
